@@ -148,6 +148,8 @@ type Exec struct {
 	recoverVal string
 	recovered  bool
 	loopHeads  map[int]map[string]loopHeadMem
+	loopHeadSt map[int]*State
+	backFrom   *ssa.BasicBlock
 	tmCache    *tmInfo
 	ghostTypes map[string]types.Type
 }
@@ -188,6 +190,32 @@ func (e *Exec) memSet(st *State, key, sort, term string) {
 		e.memGet(st, key, sort)
 	}
 	st.mem[key] = e.sc.define("m."+key, sort, term)
+	if key != "top" {
+		e.touch(st, key)
+	}
+}
+
+// touch records the allocation counter at the last write of a memory key: every
+// reference stored under that key is below it (refBound).
+func (e *Exec) touch(st *State, key string) {
+	if strings.HasPrefix(key, "tb|") || strings.HasPrefix(key, "ghost|") || key == "*all" {
+		return
+	}
+	st.mem["tb|"+key] = e.top(st)
+}
+
+func (e *Exec) refBound(st *State, key string) string {
+	if t, ok := st.mem["tb|"+key]; ok {
+		return t
+	}
+	if _, ok := st.mem[key]; ok {
+		return e.top(st)
+	}
+	// never written on this path: references are those of the entry state
+	if e.entry != nil {
+		return e.top(e.entry)
+	}
+	return e.top(st)
 }
 
 func (e *Exec) top(st *State) string { return e.memGet(st, "top", "Int") }
@@ -327,7 +355,11 @@ func (e *Exec) load(st *State, p Val) Val {
 	}
 	v := e.project(e.rootLoad(st, a), a.Steps)
 	out := Val{T: el, S: e.sc.define("ld", e.sc.sortOf(el), v)}
-	e.assumeWF(st, out)
+	if needsWF(out.T, e.mode) {
+		if f := e.wfB(st, out, e.refBound(st, a.Key)); f != "true" {
+			e.assume(st, f)
+		}
+	}
 	return out
 }
 
@@ -384,6 +416,12 @@ const maxLen = int64(1) << 40
 
 // wf returns the type invariant of a value (shallow).
 func (e *Exec) wf(st *State, v Val) string {
+	return e.wfB(st, v, e.top(st))
+}
+
+// wfB: type invariant with an explicit bound on references (the allocation
+// counter at the time the containing memory was last written).
+func (e *Exec) wfB(st *State, v Val, bound string) string {
 	t := types.Unalias(v.T)
 	if v.A != nil || v.Tup != nil || v.Fn != nil {
 		return "true"
@@ -399,11 +437,11 @@ func (e *Exec) wf(st *State, v Val) string {
 			return and(e.le(z, "(str-len "+v.S+")"), e.le("(str-len "+v.S+")", e.sc.idxLit(maxLen)), e.le(z, "(str-off "+v.S+")"), e.le("(str-off "+v.S+")", e.sc.idxLit(maxLen)))
 		}
 	case *types.Pointer, *types.Map, *types.Chan:
-		return fmt.Sprintf("(and (<= 0 %s) (< %s %s))", v.S, v.S, e.top(st))
+		return fmt.Sprintf("(and (<= 0 %s) (< %s %s))", v.S, v.S, bound)
 	case *types.Slice:
 		z := e.sc.idxLit(0)
 		b, o, l, c := "(s-base "+v.S+")", "(s-off "+v.S+")", "(s-len "+v.S+")", "(s-cap "+v.S+")"
-		return and(fmt.Sprintf("(<= 0 %s)", b), fmt.Sprintf("(< %s %s)", b, e.top(st)),
+		return and(fmt.Sprintf("(<= 0 %s)", b), fmt.Sprintf("(< %s %s)", b, bound),
 			e.le(z, l), e.le(l, c), e.le(c, e.sc.idxLit(maxLen)), e.le(z, o), e.le(o, e.sc.idxLit(maxLen)),
 			fmt.Sprintf("(=> (= %s 0) (= %s %s))", b, c, z))
 	case *types.Struct:
@@ -414,7 +452,7 @@ func (e *Exec) wf(st *State, v Val) string {
 				continue
 			}
 			fv := Val{T: ft, S: fmt.Sprintf("(%s %s)", fieldSel(structKey(t), i, u.Field(i).Name()), v.S)}
-			parts = append(parts, e.wf(st, fv))
+			parts = append(parts, e.wfB(st, fv, bound))
 		}
 		return and(parts...)
 	case *types.Interface:
@@ -821,6 +859,7 @@ func (e *Exec) route(fn *ssa.Function, fc *FuncContract, from vnode, s *ssa.Basi
 	}
 	if t.back != nil {
 		e.evalPhis(s, from.b, st)
+		e.backFrom = from.b
 		e.checkLoopBack(fn, fc, t.back, st)
 		return
 	}
@@ -961,6 +1000,9 @@ func (e *Exec) merge(sts []*State, label string) *State {
 			if k == "*all" {
 				return ""
 			}
+			if strings.HasPrefix(k, "tb|") {
+				return e.refBound(s, strings.TrimPrefix(k, "tb|"))
+			}
 			return e.memGet(s, k, e.memSort[k])
 		}
 		t0 := get(live[0])
@@ -978,7 +1020,11 @@ func (e *Exec) merge(sts []*State, label string) *State {
 		for i := len(live) - 2; i >= 0; i-- {
 			term = ite(live[i].pc, get(live[i]), term)
 		}
-		out.mem[k] = e.sc.define("m."+k, e.memSort[k], term)
+		srt := e.memSort[k]
+		if strings.HasPrefix(k, "tb|") {
+			srt = "Int"
+		}
+		out.mem[k] = e.sc.define("m."+k, srt, term)
 	}
 	for k := range live[0].nonnil {
 		all := true
